@@ -69,6 +69,11 @@ def step (c impl : String) : String :=
       if d2 == "-" then ok "tamper-empty-payload-rejected-by-deserialize"
       else if d2 == d then specViol "a modified ciphertext was accepted (same payload)" else specViol "a modified token decoded to a different position"
     | _ => if impl == "keyerr" || impl == "encerr" then "SKIP " ++ impl else modelDiff "rej|acc"
+  | ["sqlser", u, t] =>
+    -- sqlcommon serializer: encoding/json is not modelled; the property itself (issued position decodes to itself) is checked
+    if u == "-" then (if impl == "sererr" then ok "sqlser-empty-rejected" false else modelDiff "sererr")
+    else if impl == s!"ok {u} {t}" then ok "sqlser-roundtrip"
+    else specViol s!"a position issued by the SQL serializer does not decode back to itself ({impl})"
   | ["rcgate", pat, _, _, pt, _] =>
     -- ReadChanges gate: class from the model's `rcGate` on the presented (decoded) token; on resume the first
     -- returned change is the first one after the token's position whose type passes the request's filter
